@@ -21,6 +21,10 @@ def probeOut (t : Table) (n : String) : String :=
   let w1 := if pre then n ++ " a" else if post then "a " ++ n else n ++ "(a)"
   s!"probe {b inf} {b pre} {b post} {encName (w2 ++ "~" ++ w1)}"
 
+/-- ten terms around '|' and '->' written by writeq and read back: whatever the table, the reader turns
+    the writer's text back into the same term (both consult the one table op/3 maintains) -/
+def rtOut : String := "rt " ++ " ".intercalate (List.replicate 10 "same")
+
 /-- run the model over a history -/
 def runModel (ops : List String) : String :=
   let (t, outs) := ops.foldl (fun (st : Table × List String) o =>
@@ -39,6 +43,7 @@ def runModel (ops : List String) : String :=
         | .ok r => "ans " ++ rows r
         | .error e => errOut e])
     | "probe", some [.atom n] => (t, outs ++ [probeOut t n])
+    | "rt", _ => (t, outs ++ [rtOut])
     | _, _ => (t, outs ++ ["BAD-OP"])) (defaultTable, [])
   " ; ".intercalate (outs ++ ["tbl " ++ rows t])
 
@@ -102,6 +107,8 @@ def judge (ops : List String) (impl : List String) : String :=
         else if r.startsWith "err " then go t os rs (i+1) else s!"FAIL op #{i}: bad current_op pattern must raise an error, got {r}"
       | "probe", some [.atom n] =>
         if r == probeOut t n then go t os rs (i+1) else s!"FAIL op #{i}: reader/writer do not follow the table: want {probeOut t n}"
+      | "rt", _ =>
+        if r == rtOut then go t os rs (i+1) else s!"FAIL op #{i}: a term written under the current table is not read back as the same term: {r}"
       | _, _ => "FAIL unparsable op"
     | _, _, _ => "FAIL output length mismatch"
   go defaultTable ops impl 0
